@@ -416,12 +416,14 @@ Proof.
       * eapply Forall_impl; [|exact HF]. intros a Ha. apply Ha.
 Qed.
 
+(* the candidate list of the result: the profile's own list (which must be duplicate-free), the
+   candidates cast on the positive-weight expanded ballots only when that list is empty *)
 Theorem resolve_ok : forall (p p' : profile),
   resolve_profile_ties p = inl p' ->
   exists bss,
     Forall2 (fun b e => expand_tied_ballot b = inl e) (ballots p) bss /\
     ballots p' = condense_bs (concat bss) /\
-    cands p' = cast_cands cand ceqb (concat bss) /\
+    cands p' = match cands p with [] => cast_cands cand ceqb (concat bss) | _ => cands p end /\
     total_wt (ballots p') == total_wt (ballots p) /\
     (score_free (ballots p) -> forall l,
        wtof_rk l (ballots p') ==
@@ -431,7 +433,8 @@ Theorem resolve_ok : forall (p p' : profile),
 Proof.
   intros p p'. unfold Core.resolve_profile_ties, rbind.
   destruct (rmap expand_tied_ballot (ballots p)) as [bss|e] eqn:E; [|discriminate].
-  unfold mk_profile. cbn [has_dup dedup length Nat.eqb negb]. unfold ok, condense. cbn [ballots cands].
+  unfold mk_profile. destruct (has_dup cand ceqb (cands p)); [discriminate|].
+  unfold ok, condense. cbn [ballots cands].
   intros H. injection H as <-. cbn [ballots cands].
   apply rmap_ok_inv in E. exists bss. split; [exact E|]. split; [reflexivity|].
   split; [reflexivity|]. split.
@@ -440,22 +443,58 @@ Proof.
     rewrite (condense_wtof cand ceqb ceqb_spec l _ (Hs Hsf)). exact Hw.
 Qed.
 
+(* a successful call: the given candidate list is duplicate-free, and so is the returned one *)
+Theorem resolve_cands_NoDup : forall (p p' : profile),
+  resolve_profile_ties p = inl p' -> NoDup (cands p) /\ NoDup (cands p').
+Proof.
+  intros p p' H.
+  assert (Hnd : NoDup (cands p)).
+  { unfold Core.resolve_profile_ties, rbind in H.
+    destruct (rmap expand_tied_ballot (ballots p)) as [bss|e]; [|discriminate].
+    unfold mk_profile in H. destruct (has_dup cand ceqb (cands p)) eqn:Ed; [discriminate|].
+    apply (has_dup_false_iff cand ceqb ceqb_spec). exact Ed. }
+  split; [exact Hnd|].
+  destruct (resolve_ok p p' H) as (bss & _ & _ & Hc & _). rewrite Hc.
+  destruct (cands p) as [|x cs] eqn:Ec; [|exact Hnd].
+  unfold Core.cast_cands. apply (dedup_NoDup cand ceqb ceqb_spec).
+Qed.
+
+(* a non-empty candidate list is kept as it is (same candidates, same order) *)
+Theorem resolve_keeps_candidates : forall (p p' : profile),
+  resolve_profile_ties p = inl p' -> cands p <> [] -> cands p' = cands p.
+Proof.
+  intros p p' H Hne. destruct (resolve_ok p p' H) as (bss & _ & _ & Hc & _). rewrite Hc.
+  destruct (cands p) as [|x cs]; [contradiction Hne; reflexivity|reflexivity].
+Qed.
+
+(* two ways to fail: a ballot without ranking (TypeError, raised first), or -- model level only, a
+   Python profile cannot hold a candidate twice -- a candidate list with a repeated name *)
 Theorem resolve_error : forall (p : profile) e,
-  resolve_profile_ties p = inr e <-> (e = EType /\ exists b, In b (ballots p) /\ rk b = []).
+  resolve_profile_ties p = inr e <->
+  (e = EType /\ exists b, In b (ballots p) /\ rk b = []) \/
+  (e = EValue /\ (forall b, In b (ballots p) -> rk b <> []) /\ ~ NoDup (cands p)).
 Proof.
   intros p e. unfold Core.resolve_profile_ties, rbind.
   destruct (rmap expand_tied_ballot (ballots p)) as [bss|e'] eqn:E.
-  - unfold mk_profile. cbn [has_dup dedup length Nat.eqb negb]. unfold ok.
-    split; [discriminate|]. intros [_ (b & Hb & Hr)].
-    apply rmap_ok_inv in E. exfalso.
-    induction E as [|x y l l' Hxy _ IH]; [destruct Hb|].
-    destruct Hb as [<-|Hb]; [|apply IH; exact Hb].
-    apply expand_tied_ballot_ok in Hxy. apply (proj1 Hxy). exact Hr.
+  - apply rmap_ok_inv in E.
+    assert (Hne : forall b, In b (ballots p) -> rk b <> []).
+    { clear -E. induction E as [|x y l l' Hxy _ IH]; intros b Hb; [destruct Hb|].
+      destruct Hb as [<-|Hb]; [|apply IH; exact Hb].
+      apply expand_tied_ballot_ok in Hxy. exact (proj1 Hxy). }
+    unfold mk_profile. destruct (has_dup cand ceqb (cands p)) eqn:Ed; unfold ok, err.
+    + assert (Ed' : ~ NoDup (cands p)).
+      { intros Hn. apply (has_dup_false_iff cand ceqb ceqb_spec) in Hn. congruence. }
+      clear Ed. rename Ed' into Ed. split.
+      * intros H. injection H as <-. right. split; [reflexivity|]. split; [exact Hne|exact Ed].
+      * intros [[_ (b & Hb & Hr)]|[-> _]]; [exfalso; exact (Hne b Hb Hr)|reflexivity].
+    + apply (has_dup_false_iff cand ceqb ceqb_spec) in Ed. split; [discriminate|].
+      intros [[_ (b & Hb & Hr)]|[_ [_ Hd]]]; exfalso; [exact (Hne b Hb Hr)|exact (Hd Ed)].
   - apply rmap_err_inv in E. destruct E as (l1 & b & l2 & Hl & Hb & _).
-    apply expand_tied_ballot_err in Hb. destruct Hb as [Hr ->]. split.
-    + intros H. injection H as <-. split; [reflexivity|].
-      exists b. split; [rewrite Hl; apply in_or_app; right; left; reflexivity|exact Hr].
-    + intros [-> _]. reflexivity.
+    apply expand_tied_ballot_err in Hb. destruct Hb as [Hr ->].
+    assert (Hin : In b (ballots p)) by (rewrite Hl; apply in_or_app; right; left; reflexivity).
+    split.
+    + intros H. injection H as <-. left. split; [reflexivity|]. exists b. split; [exact Hin|exact Hr].
+    + intros [[-> _]|[_ [Hne _]]]; [reflexivity|exfalso; exact (Hne b Hin Hr)].
 Qed.
 
 End WithCand.
